@@ -355,8 +355,15 @@ def run_case(c, rng):
     # pump power / energy / cost
     if pumps and wn.options.energy.global_efficiency is not None:
         eff = wn.options.energy.global_efficiency / 100.0
+        if len(pumps) >= 2 and c.index % 5 < 2:
+            flow = flow[list(reversed(list(flow.columns)))]      # result tables are addressed by label, in whatever column order
+            for k_, p_ in enumerate(pumps):
+                wn.get_link(p_['name']).energy_price = 1e-8 * (k_ + 2)      # every pump its own tariff
+            c.count('pump_tables_in_another_column_order')
         pw = guard('pump_power', lambda: M.pump_power(flow, head, wn))
         en = guard('pump_energy', lambda: M.pump_energy(flow, head, wn))
+        if en is not None and len(pumps) >= 2 and c.index % 5 < 2:
+            en = en[list(reversed(list(en.columns)))]
         co = guard('pump_cost', lambda: M.pump_cost(en, wn)) if en is not None else None
         for p in pumps:
             price = wn.get_link(p['name']).energy_price
